@@ -144,6 +144,21 @@ def check(chk, repo):
         for ev, arr, how in uninitialised_accumulators(eff.walker(fi)):
             n_empty += 1
             rep.ev("DET-uninit", ev, how is None, how or "")
+    # ... and a masked ufunc (`where=`) leaves the masked-out slots of its `out=` array untouched: handing it np.empty
+    # keeps recycled memory in exactly those slots
+    for fi in reach:
+        for ev in eff.walker(fi).events:
+            if ev.kind != "call":
+                continue
+            kw = dict(ev.kwargs or ())
+            o = kw.get("out")
+            if "where" in kw and o is not None:
+                o = _peel(o)
+                n_empty += 1
+                bad = o[0] == "alloc" and o[1] in ("numpy.empty", "numpy.empty_like", "numpy.ndarray")
+                rep.ev("DET-uninit", ev, not bad,
+                       f"the masked operation writes only where its `where=` mask holds; the other slots of '{show(o)[:60]}' keep "
+                       "whatever the allocator handed back (np.empty): the result depends on what the process computed earlier")
     chk.note("np_empty_accumulators_checked", n_empty)
     # (iv) hidden state in decorators: anything on a distance / fit / predict path that is wrapped by a decorator
     # other than the known transparent ones keeps state between calls (memoisation) or changes the call
